@@ -256,7 +256,7 @@ class Signal(object):
         sampling_rate = 1.0 / self.dt
         nyq = sampling_rate * 0.5
 
-        mote = self.values
+        mote = np.asarray(self.values, dtype=float)
         org_len = len(mote)
 
         if remove_gibbs is not None:
